@@ -14,16 +14,25 @@
     - the front end of ParseTL2File never panics; a tokenizer error carries positions inside the text
       for which ParseError.consolePrint slices nothing out of range (anyCorrupted stays false).
 
-    Parser proper (tlparser_tl2_code.go): NOT transcribed.  The parser is modelled abstractly: every error it
-    builds is parseErrToken(msg, tok, outer) with [tok] an element of the token slice and [outer] the
-    position of an earlier-or-equal element ([admissibleErr]); for every such error the same in-range
-    facts are proved ([..._partial]).  Full statement that is missing:
-      forall s e, parse (tokens of s) = Err e -> admissibleErr (tokens of s) e   and   parse never panics,
-    for a Gallina transcription [parse] of the recursive-descent parser.  That part is covered on the
-    implementation side only (oracle of lib/lex_lib.py on the real ParseTL2File: recover(), error begin/end
-    offsets, token-boundary check, ConsolePrint/Error() do not panic and do not report a corrupted context). *)
+    Parser proper (tlparser_tl2_code.go): transcribed function by function, reduced to its control flow
+    (OptionalState bookkeeping, named results and deferred resets included), in Lex/LexParse2Model.v
+    ([parseTL2File] = tokenizer + [parseTokens2]); the model is compared with the real ParseTL2File on every
+    run (corr:C20:lex, field PM: ok / error class, outer, begin and end position).
+    Proved for ALL inputs and every fuel ([C20_parser_safe_partial]): the parser model never reaches one of the
+    panic sites of the Go code (tokenIterator.front/popFront out of range -- eof is only popped by the final
+    expectLazy(eof) --, log.Panicf in skipWS, val[1:] on an empty value, value[:dotIndex] with dotIndex = -1,
+    the "unexpected token in whitespace" panic and the fileContent[a:b] slices of parseCommentBefore /
+    parseCommentRight), and every error it records is located at a token of the input with the first token
+    of the combinator as outer context, hence lies inside the text and is printed by consolePrint without
+    any out-of-range slice.
+    Why "_partial": the model uses structural fuel (10 * (tokens + 2)); that this budget is never exhausted
+    ([PR_nofuel]) is not proved, only checked on every input of the correspondence run.  The AST construction
+    is outside the model; for it the implementation-side oracle applies (recover(), error offsets,
+    ConsolePrint/Error() do not panic).
+    [C20_parser_error_in_range_partial] is the same in-range statement for the abstract error model
+    [admissibleErr]. *)
 From Coq Require Import List NArith ZArith.
-From TLV Require Import Lex.LexModel Lex.LexProofs.
+From TLV Require Import Lex.LexModel Lex.LexProofs Lex.LexParse1Model Lex.LexParse2Model Lex.LexParse2Proofs.
 Import ListNotations.
 Open Scope N_scope.
 
@@ -97,6 +106,29 @@ Theorem C20_parser_error_in_range_partial : forall builtin dirty s toks e,
 Proof. exact (fun b d => parser_error_in_range (opt b d)). Qed.
 Print Assumptions C20_parser_error_in_range_partial.
 
+(** tokenizer + transcribed parser: no panic site reachable, every error in range (see header for "_partial") *)
+Theorem C20_parser_safe_partial : forall builtin dirty s,
+  match parseTL2File (opt builtin dirty) s with
+  | PR_ok => True
+  | PR_err _ e =>
+      errCorrupted (lenN s) e = false /\
+      p_off (e_begin e) <= p_off (e_end e) <= lenN s /\
+      p_off (e_outer e) <= p_off (e_begin e) /\
+      (exists pre, e_begin e = pos_spec pre /\ exists post, s = pre ++ t_val (e_tok e) ++ post) /\
+      (exists pre, e_outer e = pos_spec pre /\ exists post, s = pre ++ post)
+  | PR_panic => False
+  | PR_nofuel => True
+  end.
+Proof. exact (fun b d => parseTL2File_safe (opt b d)). Qed.
+Print Assumptions C20_parser_safe_partial.
+
+(** the fuel of the tokenizer is always sufficient; only the parser budget is unproved *)
+Theorem C20_nofuel_only_parser : forall builtin dirty s,
+  parseTL2File (opt builtin dirty) s = PR_nofuel ->
+  exists toks, parseFront (opt builtin dirty) s = Ok (F_tokens toks) /\ parseTokens2 (lenN s) toks = T_nofuel.
+Proof. exact (fun b d => parseTL2File_nofuel_only_parser (opt b d)). Qed.
+Print Assumptions C20_nofuel_only_parser.
+
 (** Non-vacuity: the model really tokenizes, reports errors, and the hypotheses are satisfiable. *)
 (* "a#1a2b3c4d <=> _x:Type;\r\n" *)
 Definition sample : list N :=
@@ -145,3 +177,22 @@ Example ex_corrupted_detects :
   errCorrupted 5 (mkErr E_undefined (mkTok 59%Z [59] (mkPos 1 6 0 5)) (mkPos 1 1 0 0)) = true.
 Proof. vm_compute. reflexivity. Qed.
 
+
+(* the sample parses; a truncated one fails at the eof token with the first token as outer context *)
+(* "a = x:int;\n" *)
+Definition sample2 : list N := [97; 32; 61; 32; 120; 58; 105; 110; 116; 59; 10].
+
+Example ex_parse_ok : parseTL2File (opt false false) sample2 = PR_ok.
+Proof. vm_compute. reflexivity. Qed.
+
+Example ex_parse_err :
+  match parseTL2File (opt false false) (firstn 9 sample2) with
+  | PR_err false e => Some (e_kind e, t_type (e_tok e), p_off (e_begin e), p_off (e_end e), p_off (e_outer e))
+  | _ => None
+  end = Some (E2_semicolon, T_eof, 9, 9, 0).
+Proof. vm_compute. reflexivity. Qed.
+
+(* "a = x:" ++ "[" * 40 ++ "]" * 40 ++ "int;" : nesting within the fuel budget *)
+Example ex_parse_nested :
+  parseTL2File (opt false false) ([97; 32; 61; 32; 120; 58] ++ flat_map (fun _ => [91; 93]) (repeat 0 40) ++ [105; 110; 116; 59]) = PR_ok.
+Proof. vm_compute. reflexivity. Qed.
